@@ -70,12 +70,31 @@ pub fn run(opts: &HashMap<String, String>) -> i32 {
         if mode == "bounds" {
             // C06: boundary numerals; each input is run in one read and with 1-byte reads (cold scanner path)
             let flag = rng.gen_range(0..3) == 0;
-            let input = gen::gen_dimacs_bounds(parser, lit, &mut rng);
+            let input = match parser {
+                "aag" => gen::gen_aiger_bounds(false, &mut rng),
+                "aig" => gen::gen_aiger_bounds(true, &mut rng),
+                _ => gen::gen_dimacs_bounds(parser, lit, &mut rng),
+            };
             let base = RunCfg::reference(parser, lit, flag);
             run_traced(rid, &input, &base);
             let v = variant(&base, Policy::Fixed(1), "fixed1", 1, 0, seed);
             run_traced(rid + 1, &input, &v);
             runs += 2;
+            continue;
+        }
+        if mode == "corrupt" {
+            // C08 s.2: a well-formed document with one numeric token corrupted at a known span
+            let lit = if rng.gen_bool(0.5) { lits[0] } else { lit };
+            let doc = gen::gen_valid(parser, &mut rng);
+            if let Some(c) = gen::corrupt(parser, lit, &doc, &mut rng) {
+                let base = RunCfg::reference(parser, lit, false);
+                crate::parsers::set_corruption(Some((c.line, c.col_lo, c.col_hi, c.kind)));
+                run_traced(rid, &c.doc, &base);
+                let v = variant(&base, Policy::Random(3), "random3", [1usize, 2, 3][rng.gen_range(0..3)], 0, seed ^ id);
+                run_traced(rid + 1, &c.doc, &v);
+                crate::parsers::set_corruption(None);
+                runs += 2;
+            }
             continue;
         }
         if mode == "layout" {
